@@ -55,7 +55,7 @@ void gen_tracks(Plan& p, Rng& r)
     for (int i = 0; i < n0; ++i)
         p.steps.push_back(mk("create_track", r, 0, draw_size(r)));
     int n = 4 + (int)r.below(14);
-    std::vector<unsigned> w = {50, 12, 8, 5, 5, 5, 4, 3, 3, 3};
+    std::vector<unsigned> w = {50, 12, 8, 5, 5, 5, 4, 3, 3, 3, 4};
     // swarm: zero out a random subset of op kinds
     for (auto& x : w)
         if (r.chance(1, 5))
@@ -75,6 +75,7 @@ void gen_tracks(Plan& p, Rng& r)
             case 7: p.steps.push_back(mk("create_root", r, 0, 1)); break;
             case 8: p.steps.push_back(mk("add_track", r, 3, 1)); break;
             case 9: p.steps.push_back(mk("create_sub", r, 1, 1)); break;
+            case 10: p.steps.push_back(mk("f_unanalyse", r, 1, 1)); break;  // on-disk 1.x only; a no-op elsewhere
         }
     }
 }
@@ -171,8 +172,8 @@ void gen_mixed(Plan& p, Rng& r)
     static const char* ops[] = {"create_track", "update", "set", "remove_track", "create_root",
                                 "create_sub", "create_sub_after", "set_name", "set_parent",
                                 "remove_crate", "add_track", "remove_from", "clear", "reload", "clock",
-                                "rewrite", "create_root_after"};
-    std::vector<unsigned> w = {8, 5, 20, 4, 6, 8, 4, 4, 6, 4, 10, 5, 2, 4, 3, 2, 3};
+                                "rewrite", "create_root_after", "f_unanalyse"};
+    std::vector<unsigned> w = {8, 5, 20, 4, 6, 8, 4, 4, 6, 4, 10, 5, 2, 4, 3, 2, 3, 2};
     for (auto& x : w)
         if (r.chance(1, 5))
             x = 0;
